@@ -45,6 +45,9 @@ func checkC17(tier string) {
 			"join": fmt.Sprintf("func(l []string) string { return deriveJoinS_%s(l) }", i)}})
 	}
 	env := []string{"VERIF_ELEMK=3", "VERIF_FUEL=3", "VERIF_LISTLEN=3", "VERIF_STRLEN=4"}
+	if tier == "thorough" {
+		env = []string{"VERIF_ELEMK=3", "VERIF_FUEL=3", "VERIF_LISTLEN=4", "VERIF_STRLEN=6"}
+	}
 	res := runE1(cases, "C17", 30, env, 1)
 	aggregateE1(rep, "C17", cases, res, bound+"; result types {A, []string} for slices and {rune,string,int,Flat,*int,[]byte} for strings",
 		"state = one input: every slice of length 0..3 (incl. nil) over a 4-value element pool; every list of up to 3 inner lists over 6 inner shapes (nil, empty, 1, 2 elements, two windows of one shared backing array with spare capacity); every string of up to 4 runes over {1,2,3,4-byte rune, invalid byte} (781 strings); every list of up to 3 string pieces; transition = one generated Fmap/Join call compared with map/concat over []rune, f's call log compared; non-trivial = inputs with >= 2 elements / strings containing a multi-byte rune")
